@@ -1065,3 +1065,62 @@ Proof.
     + inversion Hn; subst. exists b. split; reflexivity.
     + cbn in Hl. apply (IH ks); [lia | exact Hn].
 Qed.
+
+(* ====================================================================== column references are by NAME *)
+(* Expressions are values: [eval sch r e] is a function of the schema and the row AT THE STEP WHERE e IS USED.
+   In particular a column reference reads the cell at the position its name has in that schema, wherever the
+   column was in an earlier frame of the chain -- re-using one expression (object) in several steps, or in both
+   operands of a union, cannot make a difference. *)
+Lemma positions_absent n : forall sch k, mem_name n sch = false -> positions n sch k = [].
+Proof.
+  unfold mem_name. induction sch as [|m sch IH]; intros k H; [reflexivity|]. cbn in H |- *.
+  apply orb_false_iff in H as [H1 H2]. rewrite H1. apply IH; exact H2.
+Qed.
+
+Lemma mem_name_nth n : forall sch i, nth_error sch i = Some n -> mem_name n sch = true.
+Proof.
+  unfold mem_name. induction sch as [|m sch IH]; intros i H; [destruct i; discriminate H|].
+  destruct i as [|i]; cbn in H |- *.
+  - inversion H; subst. rewrite name_eqb_refl. reflexivity.
+  - rewrite (IH i H). apply orb_true_r.
+Qed.
+
+Lemma positions_unique n : forall sch k i,
+  nodup_names sch = true -> nth_error sch i = Some n -> positions n sch k = [(k + i)%nat].
+Proof.
+  induction sch as [|m sch IH]; intros k i Hn Hi; [destruct i; discriminate Hi|].
+  cbn in Hn. apply andb_true_iff in Hn as [Hm Hn]. apply negb_true_iff in Hm.
+  destruct i as [|i]; cbn in Hi |- *.
+  - inversion Hi; subst. rewrite name_eqb_refl, (positions_absent n sch (S k) Hm). f_equal. lia.
+  - destruct (name_eqb n m) eqn:E.
+    + apply name_eqb_eq in E. subst m. rewrite (mem_name_nth n sch i Hi) in Hm. discriminate Hm.
+    + rewrite (IH (S k) i Hn Hi). f_equal. lia.
+Qed.
+
+Theorem column_by_name : forall sch r n i,
+  nodup_names sch = true -> nth_error sch i = Some n ->
+  eval sch r (ECol n) = nth_error r i.
+Proof.
+  intros sch r n i Hn Hi. cbn [eval]. unfold lookup, find_position.
+  rewrite (positions_unique n sch 0 i Hn Hi). reflexivity.
+Qed.
+
+(* the same expression in two frames that hold the same named cells in different column orders has the same
+   value: stated for a row and its permutation by [reorder_row] (what select / unionByName do) *)
+Theorem eval_reordered_column : forall from to r r' n,
+  nodup_names from = true -> nodup_names to = true ->
+  reorder_row from to r = Some r' -> mem_name n to = true ->
+  eval to r' (ECol n) = eval from r (ECol n).
+Proof.
+  intros from to r r' n Hf Ht Hr Hm. cbn [eval].
+  apply existsb_exists in Hm as [m [Hin Hnm]]. apply name_eqb_eq in Hnm. subst m.
+  apply In_nth_error in Hin as [i Hi].
+  pose proof (column_by_name to r' n i Ht Hi) as E. cbn [eval] in E. rewrite E.
+  unfold reorder_row in Hr. clear E Ht Hf.
+  revert r' i Hr Hi. induction to as [|m to IH]; intros r' i Hr Hi; [destruct i; discriminate Hi|].
+  cbn [map_opt] in Hr. destruct (lookup from r m) as [v|] eqn:Ev; [|discriminate Hr].
+  destruct (map_opt (lookup from r) to) as [rest|] eqn:Er; [|discriminate Hr]. inversion Hr; subst.
+  destruct i as [|i]; cbn in Hi |- *.
+  - inversion Hi; subst. symmetry. exact Ev.
+  - apply (IH rest i eq_refl Hi).
+Qed.
